@@ -58,7 +58,9 @@ func showRows(rows []map[string]interface{}) string {
 func showDeleted(ds []pgdump.DeletedRow) string {
 	parts := make([]string, len(ds))
 	for i, d := range ds {
-		parts[i] = fmt.Sprintf("%d/%d/%d/%s", d.PageOffset, d.ItemOffset, d.RawSize, showRow(d.Data))
+		// DeletedRow.ItemOffset is declared but never assigned anywhere in pgread (always 0) and no property speaks
+		// about it: it is not part of the compared text (the Spec is silent about it)
+		parts[i] = fmt.Sprintf("%d/%d/%s", d.PageOffset, d.RawSize, showRow(d.Data))
 	}
 	return strings.Join(parts, ";")
 }
@@ -107,6 +109,19 @@ func init() {
 	})
 	// rowexh: one argument = batch of "cols|bitmap|data" joined by ";"
 	core.Register("rowexh", func(args []string) string {
+		items := strings.Split(args[0], ";")
+		outs := make([]string, len(items))
+		for i, it := range items {
+			f := strings.Split(it, "|")
+			outs[i] = showRow(pgdump.DecodeTuple(mkTuple(f[1], f[2]), parseCols(f[0])))
+		}
+		return strings.Join(outs, ";")
+	})
+	// rowexh4: the whole 4-column level of the enumeration, same batch format
+	core.Register("rowexh4", func(args []string) string {
+		if args[0] == "-" {
+			return ""
+		}
 		items := strings.Split(args[0], ";")
 		outs := make([]string, len(items))
 		for i, it := range items {
